@@ -8,12 +8,14 @@ import (
 	"bufio"
 	"bytes"
 	"encoding/json"
+	"errors"
 	"flag"
 	"fmt"
 	"math/rand"
 	"os"
 	"path/filepath"
 	"syscall"
+	"time"
 
 	"github.com/whoisnian/glb/util/osutil"
 	"verif/harness/internal/vio"
@@ -93,6 +95,12 @@ func main() {
 					continue
 				}
 				srcName := srcNames[(runs+skipped)%len(srcNames)]
+				if s.Scen.Dst == "full" {
+					if fi, err := os.Stat("/dev/full"); err != nil || fi.Mode()&os.ModeCharDevice == 0 || size == 0 {
+						skipped++
+						continue
+					}
+				}
 				isOther := s.Scen.Dst == "otherFsMissing" || s.Scen.Dst == "otherFsFile" || s.Scen.Dst == "otherFsSymlinkToSrc"
 				if isOther && !otherOK {
 					skipped++
@@ -134,7 +142,17 @@ func main() {
 				spell := "plain"
 				switch s.Scen.Dst {
 				case "file":
-					os.WriteFile(D, dstBytes, 0o644)
+					if runs%2 == 1 && size > 0 {
+						// an older file of exactly the source's length and modification time, with other content
+						dstBytes = bytes.Repeat([]byte{'d'}, size)
+						os.WriteFile(D, dstBytes, 0o644)
+						when := time.Unix(1700000000, 0)
+						os.Chtimes(S, when, when)
+						os.Chtimes(D, when, when)
+						spell = "same size and mtime"
+					} else {
+						os.WriteFile(D, dstBytes, 0o644)
+					}
 				case "same":
 					switch rng.Intn(3) {
 					case 0:
@@ -176,6 +194,8 @@ func main() {
 				case "otherFsSymlinkToSrc":
 					D = filepath.Join(d2, "dst.lnk")
 					os.Symlink(S, D)
+				case "full":
+					D = "/dev/full" // opens fine, every write fails with ENOSPC (never renamed onto: copy only)
 				case "srcTarget":
 					D = filepath.Join(d1, "real.bin")
 				case "symlinkToSrcTarget":
@@ -212,7 +232,11 @@ func main() {
 				// ---- the statement itself, on the real outcome
 				if s.Scen.Src == "file" || s.Scen.Src == "linkToFile" {
 					sb, serr := os.ReadFile(S)
-					db, derr := os.ReadFile(D)
+					var db []byte
+					derr := errors.New("a device, not a file that could hold the bytes")
+					if s.Scen.Dst != "full" {
+						db, derr = os.ReadFile(D)
+					}
 					srcIntact := serr == nil && bytes.Equal(sb, srcBytes)
 					dstHas := derr == nil && bytes.Equal(db, srcBytes)
 					switch {
@@ -234,7 +258,7 @@ func main() {
 				content := map[string][]byte{"c_src": srcBytes, "c_dst": dstBytes, "empty": {}}
 				for name, want := range s.Final {
 					p := paths[name]
-					if name == "D" && (s.Scen.Dst == "same" || s.Scen.Dst == "srcTarget") {
+					if name == "D" && (s.Scen.Dst == "same" || s.Scen.Dst == "srcTarget" || s.Scen.Dst == "full") {
 						continue // D is S / R
 					}
 					li, lerr := os.Lstat(p)
